@@ -65,8 +65,10 @@ Emit == done =>
         /\ PrintT(ToJson([kind |-> "tied2", a |-> a, b |-> b, n1 |-> n1, n2 |-> a + b - n1, items |-> it, den |-> den]))
 \* pairs <<n1, n2>>: untied; triples <<a, b, n1>>: tied pools of two values.  The lopsided untied sizes (one sample of 1..3
 \* values, the other up to 300) need a raised exact limit; the tied pools reach totals C(N,n1) beyond 2^63 and beyond 1e80
-SizesQuick == {<<3, 4>>, <<12, 15>>, <<39, 40>>, <<1, 3>>, <<1, 259>>, <<3, 44>>, <<2, 300>>,
+SizesQuickBase == {<<3, 4>>, <<12, 15>>, <<39, 40>>, <<1, 3>>, <<1, 259>>, <<3, 44>>, <<2, 300>>,
                <<30, 37, 34>>, <<40, 40, 40>>, <<135, 135, 135>>, <<3, 167, 85>>, <<255, 255, 10>>}
+\* (50,49): C(99,50) ~ 5e28 - the upper-tail sums of the untied CDF pass 1 - 1e-16 here (UDist's own check only: it costs a minute)
+SizesQuick == SizesQuickBase \cup {<<50, 49>>}
 SizesThorough == SizesQuick \cup {<<50, 50>>, <<38, 45>>, <<50, 32>>, <<25, 50>>, <<37, 37>>, <<50, 3>>, <<1, 600>>, <<4, 260>>,
                                   <<150, 160, 155>>, <<200, 180, 190>>, <<33, 33, 33>>, <<34, 33, 33>>, <<100, 170, 130>>, <<400, 400, 7>>}
 =============================================================================
